@@ -36,7 +36,7 @@ CIA_TAB = 2e-55 * np.array([1.0, 1.4, 0.6, 1.2, 0.8])
 
 def xsec_of(gas):
     def f(T, P):
-        return XS[gas] * SHAPE[gas] * (P / 1e3) ** 0.25 * 1e4     # cm^2, per-layer exact
+        return XS[gas] * SHAPE[gas] * (P / 1e3) ** 0.25     # m^2 (LayerOpacity serves it as is), per-layer exact
     return f
 
 
@@ -65,17 +65,23 @@ def new_contrib(kind, params):
 NAME = dict(abs='Absorption', cia='CIA', ray='Rayleigh', cloud='SimpleClouds')
 
 
-def build_model(added, params, ch4=None, with_ch4=True):
+def build_model(added, params, ch4=None, with_ch4=True, nlate=0, ch4_profile=None):
     from taurex.data.profiles.chemistry import TaurexChemistry, ConstantGas
     from taurex.data.profiles.temperature import Isothermal
     chem = TaurexChemistry(fill_gases=['H2', 'He'], ratio=0.17)
     chem.addGas(ConstantGas('H2O', mix_ratio=params['mix']))
-    if with_ch4:
+    if ch4_profile is not None:
+        from taurex.data.profiles.chemistry.gas.arraygas import ArrayGas
+        chem.addGas(ArrayGas('CH4', mix_ratio_array=list(ch4_profile)))
+    elif with_ch4:
         chem.addGas(ConstantGas('CH4', mix_ratio=2e-4 if ch4 is None else ch4))
     m = make_transmission(NL, chemistry=chem, temperature=Isothermal(T=params['T']), pmin=1e0, pmax=1e5)
-    for k in added:
+    early = added[:len(added) - nlate]
+    for k in early:
         m.add_contribution(new_contrib(k, params))
     m.build()
+    for k in added[len(added) - nlate:]:       # added after build(): appended, not re-sorted
+        m.add_contribution(new_contrib(k, params))
     return m
 
 
@@ -107,10 +113,23 @@ class Fresh:
         return self.cache[key]
 
 
-def same(a, b):
+CUTOFF = math.exp(-10.0)
+
+
+def same_rel(a, b):
+    """cross-sections (1e-30 .. 1e-20): purely relative comparison"""
     a = np.asarray(a, dtype=float)
     b = np.asarray(b, dtype=float)
-    return a.shape == b.shape and bool(np.all(np.abs(a - b) <= 1e-12 + 1e-9 * np.abs(b)))
+    return a.shape == b.shape and bool(np.all(np.abs(a - b) <= 1e-9 * np.abs(b)))
+
+
+def same(a, b):
+    """equal to 1e-9, or both inside the licensed saturation cut-off (T <= exp(-10))"""
+    a = np.asarray(a, dtype=float)
+    b = np.asarray(b, dtype=float)
+    if a.shape != b.shape:
+        return False
+    return bool(np.all((np.abs(a - b) <= 1e-12 + 1e-9 * np.abs(b)) | ((a <= CUTOFF) & (b <= CUTOFF))))
 
 
 def which_version(arr, history, fresh, getter):
@@ -125,24 +144,27 @@ def which_version(arr, history, fresh, getter):
 
 
 def replay_behaviour(ctx, beh):
-    added, hist = beh['added'], beh['hist']
+    added, hist, nlate = beh['added'], beh['hist'], beh.get('nlate', 0)
     params = dict(cloudP=CLOUDP[0], mix=MIX[0], T=TEMPS[0])
     idx = dict(cloudP=0, mix=0, T=0)
-    m = build_model(added, params)
+    m = build_model(added, params, nlate=nlate)
     built = [c.name for c in m.contribution_list]
-    fresh = Fresh(added)
+    fresh = Fresh(added)          # reference: everything added before build() (sorted)
     history = [dict(params)]
-    vec = dict(added=added, hist=hist)
+    vec = dict(added=added, hist=hist, nlate=nlate)
     trail = []
     for step, (op, arg) in enumerate(hist):
         trail.append(op + (':' + arg if arg else ''))
-        cls = '%s@%s' % (op, '>'.join(trail[-3:]))
+        cls = '%s@%s%s' % (op, '>'.join(trail[-3:]), ':late%d' % nlate if nlate else '')
         try:
             if op == 'set':
                 idx[arg] += 1
                 if arg == 'cloudP':
                     params['cloudP'] = CLOUDP[idx[arg] % len(CLOUDP)]
-                    m['clouds_pressure'] = params['cloudP']
+                    if 'clouds_pressure' in m.fittingParameters:
+                        m['clouds_pressure'] = params['cloudP']
+                    else:       # deck added after build(): not collected, set it on the component
+                        [c for c in m.contribution_list if c.name == 'SimpleClouds'][0].cloudsPressure = params['cloudP']
                 elif arg == 'mix':
                     params['mix'] = MIX[idx[arg] % len(MIX)]
                     m['H2O'] = params['mix']
@@ -220,19 +242,19 @@ def weighting(ctx):
     by = {c.name: c for c in m.contribution_list}
     # Absorption: sigma_g[k] = xsec_g(layer k) * mix_g[k]
     for gas, sig in by['Absorption'].prepare_each(m, WN):
-        want = np.array([xsec_of(gas)(1000.0, P[k]) / 1e4 * chem.get_gas_mix_profile(gas)[k] for k in range(NL)])
-        ctx.verdict('weighted_by_mixing_ratio', same(np.array(sig), want), cls='Absorption:' + gas,
+        want = np.array([xsec_of(gas)(1000.0, P[k]) * chem.get_gas_mix_profile(gas)[k] for k in range(NL)])
+        ctx.verdict('weighted_by_mixing_ratio', same_rel(np.array(sig), want), cls='Absorption:' + gas,
                     detail='component sigma != xsec x mix', vector=dict(gas=gas))
     # CIA: sigma = table * mix1 * mix2 ; optical depth uses density^2
     for pair, sig in by['CIA'].prepare_each(m, WN):
         f = chem.get_gas_mix_profile('H2') * chem.get_gas_mix_profile('He')
         want = CIA_TAB[None, :] * f[:, None]
-        ctx.verdict('weighted_by_mixing_ratio', same(np.array(sig), want), cls='CIA:' + pair,
+        ctx.verdict('weighted_by_mixing_ratio', same_rel(np.array(sig), want), cls='CIA:' + pair,
                     detail='CIA sigma != table x mix(H2) x mix(He)', vector=dict(pair=pair))
     # Rayleigh: sigma = sigma_R(gas) * mix
     for gas, sig in by['Rayleigh'].prepare_each(m, WN):
         want = rayleigh_sigma_from_name(gas, WN)[None, :] * chem.get_gas_mix_profile(gas)[:, None]
-        ctx.verdict('weighted_by_mixing_ratio', same(np.array(sig), want), cls='Rayleigh:' + gas,
+        ctx.verdict('weighted_by_mixing_ratio', same_rel(np.array(sig), want), cls='Rayleigh:' + gas,
                     detail='Rayleigh sigma != sigma_R x mix', vector=dict(gas=gas))
     # density / density^2 in the optical depth: per-source T against the calibrated evaluator
     mc = proj_contrib(m.model_contrib())
@@ -245,6 +267,36 @@ def weighting(ctx):
         tau, _, _ = tau_layers([A.tolist()], None, L, 10.0)
         ctx.verdict('density_power', same(mc[name], np.exp(-np.array(tau))), cls=name,
                     detail='T(%s) != exp(-sum sigma n^%d L)' % (name, 2 if name == 'CIA' else 1), vector=dict(source=name))
+    # every source against the documented weighting evaluated from the fixtures (not from the code's
+    # own sigma): sum over species of cross-section x mixing ratio, layer by layer, including a species
+    # that is absent (exactly zero) in some layers only
+    prof = [0.0, 0.0, 1e-4, 2e-4, 0.0, 1e-5]
+    mz = build_model(['abs', 'cia', 'ray'], params, ch4_profile=prof)
+    mz.model()
+    mcz = proj_contrib(mz.model_contrib())
+    chz = mz.chemistry
+    dz = np.asarray(mz.densityProfile, dtype=float)
+    Pz = np.asarray(mz.pressureProfile, dtype=float)
+    rz = (mz.planet.fullRadius + np.asarray(mz.altitude_boundaries)).tolist()
+    Lz = chord_table(rz, 'old')
+    ok_prof = same_rel(np.asarray(chz.get_gas_mix_profile('CH4')), np.array(prof))
+    if not ok_prof:
+        raise Machinery('fixture: ArrayGas profile not reproduced: %r' % (chz.get_gas_mix_profile('CH4'),))
+    exp_sig = {}
+    exp_sig['Absorption'] = sum(np.array([xsec_of(g)(1000.0, Pz[k]) * chz.get_gas_mix_profile(g)[k] for k in range(NL)])
+                                for g in ('H2O', 'CH4'))
+    exp_sig['CIA'] = CIA_TAB[None, :] * (chz.get_gas_mix_profile('H2') * chz.get_gas_mix_profile('He'))[:, None]
+    ray = np.zeros((NL, len(WN)))
+    for g in list(chz.activeGases) + list(chz.inactiveGases):
+        sr = rayleigh_sigma_from_name(g, WN)
+        if sr is not None:
+            ray = ray + sr[None, :] * chz.get_gas_mix_profile(g)[:, None]
+    exp_sig['Rayleigh'] = ray
+    for name, sig in exp_sig.items():
+        A = sig * ((dz ** 2) if name == 'CIA' else dz)[:, None]
+        tau, _, _ = tau_layers([A.tolist()], None, Lz, 10.0)
+        ctx.verdict('source_is_sum_of_weighted_species', same(mcz[name], np.exp(-np.array(tau))), cls=name + ':partial-zero-profile',
+                    detail='T(%s) != exp(-sum_species sigma x mix x n L) with CH4 = %r' % (name, prof), vector=dict(source=name, ch4=prof))
     # zero abundance changes nothing
     base = np.asarray(build_model(['abs', 'ray'], params, with_ch4=False).model()[2])
     zero = np.asarray(build_model(['abs', 'ray'], params, ch4=0.0).model()[2])
@@ -257,7 +309,7 @@ def weighting(ctx):
     m1.model(); m2.model()
     s1 = dict((g, np.array(s)) for g, s in m1.contribution_list[0].prepare_each(m1, WN))
     s2 = dict((g, np.array(s)) for g, s in m2.contribution_list[0].prepare_each(m2, WN))
-    ctx.verdict('proportional_to_abundance', same(s2['CH4'], 2.0 * s1['CH4']) and same(s2['H2O'], s1['H2O']),
+    ctx.verdict('proportional_to_abundance', same_rel(s2['CH4'], 2.0 * s1['CH4']) and same_rel(s2['H2O'], s1['H2O']),
                 cls='CH4x2', detail='doubling CH4 did not double its weighted opacity (or changed H2O)', vector=dict(gas='CH4'))
     # all insertion orders give the same spectrum and the same evaluation order (clouds first)
     ref = None
